@@ -75,7 +75,7 @@ pub fn gen_rules(rng : &mut Rng, pr : &Profile) -> (Vec<XRule>, Vec<String>)
         while src.len() < ns { let c = avail[rng.below(avail.len())].clone(); if !src.contains(&c) { src.push(c); } }
         let kind = match rng.below(20)
         {
-            0..=7 => "fn", 8..=10 => "sel", 11..=16 => "copy", 17 => "const",
+            0..=7 => "fn", 8..=10 => "sel", 11..=16 => "copy", 17 => if rng.chance(1, 2) { "const" } else { "empty" },
             _ => if pr.fail { if rng.chance(1, 3) { "kill" } else { "fail" } } else if pr.equal_outputs { "copy" } else { "fn" },
         };
         let kind = if pr.equal_outputs && rng.chance(1, 3) { "copy" } else { kind };
